@@ -207,6 +207,13 @@ where
 
             let wait_read = async {
                 let mut buffer = self.state.take_buffer();
+                #[cfg(trusttunnel_verif)]
+                crate::verif_emit!(
+                    "H1Take",
+                    "\"waiting\":{},\"buf\":{}",
+                    matches!(self.state, State::WaitingRequest(_)),
+                    buffer.len()
+                );
                 // Bytes buffered while waiting for a request have already been parsed
                 // and are an incomplete head: parsing them again without reading more
                 // would spin forever
